@@ -16,7 +16,7 @@ Setup (do this first):
   cd {wt} && cmake -G Ninja -B _build >/dev/null && cmake --build _build -j4 >/dev/null   # ~1 min
   test suite: ctest --test-dir {wt}/_build -j4 --timeout 900     (about 90 tests; all must pass — except `lib_chibi_weak-test`, which is known to be flaky on the unchanged code)
   run programs with: {wt}/_build/chibi-scheme  — check how the tests set the module path (see CMakeLists.txt: tests run with CHIBI_IGNORE_SYSTEM_PATH=1 and CHIBI_MODULE_PATH={wt}/lib or similar and LD_LIBRARY_PATH={wt}/_build); after changing C code re-run `cmake --build _build -j4`; Scheme library changes under lib/ take effect immediately.
-Work ONLY inside {wt} and {out} (create it). Never touch /repo itself or /verif (do not read /verif either). Never use `pkill`; kill processes by PID only. Use at most 4 parallel jobs.
+Work ONLY inside {wt} and {out} (create it). Never touch /repo itself or /verif (do not read /verif either). Never use `pkill`; kill processes by PID only. Never use `git stash` (the stash is shared by all worktrees of /repo and other people use it): save a change with `git diff > file` and undo it with `git checkout -- .`. Use at most 4 parallel jobs.
 
 What kind of change: a plausible maintenance edit a reviewer could let through — an off-by-one, a dropped or inverted condition, a lost update, a wrong variable, a missing case, an "optimisation" shortcut, a reordering, two cooperating sites that each look fine alone. It must need something SPECIFIC to manifest: an unusual input or boundary value, a multi-step sequence of operations, a particular interleaving/schedule, a fault or collection at a particular point, a rarely used code path — NOT something ordinary use or the existing tests would expose at once (the whole existing suite must still pass). The three changes should exercise DIFFERENT mechanisms/code sites of the property (use the anchors). Do not rely on defects already present in the unchanged code: the demonstration must pass on the unchanged worktree. Keep each change small (a few lines).
 
